@@ -559,6 +559,29 @@ Proof.
   intros Hm He. apply props_full_error; [exact Hmax|].
   apply prop_value_error; [exact Hpos|exact Hm|apply pget_empty|exact He].
 Qed.
+(* a User Property (id 38, allowed everywhere) whose name or value is not UTF-8 *)
+Theorem C20_props_user_name_not_utf8 s : len s <= 65535 -> utf8_valid s = false ->
+  decode_props_full ctx allowed t (write_var_int plen ++ USER_PROPERTY :: be16 (len s mod 65536) ++ s ++ r)
+  = RErr InvalidString.
+Proof.
+  intros Hl Hv. apply props_full_error; [exact Hmax|]. cbn [decode_props_loop].
+  destruct (N.leb_spec plen 0) as [Hle|_]; [lia|].
+  erewrite bind_ok by apply read_u8_cons. change (prop_of_u8 USER_PROPERTY) with (Some KUser). cbv iota.
+  erewrite bind_err by (apply read_string_invalid_lp; assumption). reflexivity.
+Qed.
+
+Theorem C20_props_user_value_not_utf8 name s : len name <= 65535 -> utf8_valid name = true ->
+  len s <= 65535 -> utf8_valid s = false ->
+  decode_props_full ctx allowed t
+    (write_var_int plen ++ USER_PROPERTY :: be16 (len name mod 65536) ++ name ++ be16 (len s mod 65536) ++ s ++ r)
+  = RErr InvalidString.
+Proof.
+  intros Hln Hvn Hl Hv. apply props_full_error; [exact Hmax|]. cbn [decode_props_loop].
+  destruct (N.leb_spec plen 0) as [Hle|_]; [lia|].
+  erewrite bind_ok by apply read_u8_cons. change (prop_of_u8 USER_PROPERTY) with (Some KUser). cbv iota.
+  erewrite bind_ok by (apply read_string_lp; assumption).
+  erewrite bind_err by (apply read_string_invalid_lp; assumption). reflexivity.
+Qed.
 End FirstProperty.
 
 (* property length - 1 for a section that holds exactly one property *)
